@@ -21,6 +21,7 @@ func main() {
 	rng := wh.NewRng(a.Seed)
 	f := gc.Focus{Blocking: 200, Persistent: 1000, Cancel: 60, Hold: 0, Nested: 0, Late: 800, CloseRace: 0, MaxSubs: 4, MaxPubs: 3, MaxMsgs: 6}
 	emit := func(sc gc.Scenario) bool {
+		out.Begin(sc.Describe())
 		res := gc.Run(sc)
 		gc.Emit(out, res)
 		out.Count(fmt.Sprintf("cfg.buf%d.block%v.park=%s/%s", sc.Buf, sc.Blocking, sc.ParkHook, sc.ParkOp))
@@ -30,13 +31,27 @@ func main() {
 		}
 		return true
 	}
+	// a backlog of well over a thousand messages, with one subscription arriving while the publisher is still running
+	nbig := 2
+	if a.Thorough() {
+		nbig = 12
+	}
+	for i := 0; i < nbig; i++ {
+		if !emit(gc.BigBacklog(rng.Next())) {
+			return
+		}
+	}
 	// forced overlaps: hold a Publish (or a Subscribe's replay) at each point of its critical path while the other operation runs
 	for _, hook := range []string{"gochannel.publish.after_closed_check", "gochannel.publish.locked", "gochannel.publish.persisted", "gochannel.publish.sent",
-		"gochannel.subscribe.after_closed_check", "gochannel.subscribe.locked", "gochannel.subscribe.replay", "gochannel.subscribe.registered"} {
+		"gochannel.subscribe.after_closed_check", "gochannel.subscribe.locked", "gochannel.subscribe.replay", "gochannel.subscribe.replay_msg", "gochannel.subscribe.registered", "gochannel.dispatch.next"} {
 		for _, op := range []string{"publish", "subscribe"} {
 			for _, buf := range []int{0, 2} {
+				after := 0
+				if hook == "gochannel.subscribe.replay_msg" {
+					after = 1 // the replay loop runs only when something was persisted before the Subscribe
+				}
 				sc := gc.Scenario{Buf: buf, Persistent: true, Seed: rng.Next(), ParkHook: hook, ParkOp: op,
-					Subs: []gc.SubSpec{{Topic: 0, Phase: 0, CancelAtRecv: -1, NestedTopic: -1}, {Topic: 0, Phase: 1, CancelAtRecv: -1, NestedTopic: -1, NackFirst: 1, NackEvery: 2}},
+					Subs: []gc.SubSpec{{Topic: 0, Phase: 0, CancelAtRecv: -1, NestedTopic: -1}, {Topic: 0, Phase: 1, CancelAtRecv: -1, NestedTopic: -1, NackFirst: 1, NackEvery: 2, AfterPubs: after}},
 					Pubs: []gc.PubSpec{{Topic: 0, Calls: 2, Batch: 2}}}
 				if !emit(sc) {
 					return
